@@ -1,5 +1,647 @@
 package main
 
-func phaseH1(cr *childResult, seed uint64, quick bool) {}
-func phaseH2(cr *childResult, seed uint64, quick bool) {}
-func phaseH3(cr *childResult, seed uint64, quick bool) {}
+// Stress phases: N callers x mixed request kinds against local origins that answer out of
+// order, close connections and abort some requests.  Oracles (property text, no model):
+//   tagging        every caller gets the response carrying its own unique tag;
+//   conn serial    an HTTP/1.1 connection never carries two overlapping requests (origin side);
+//   limits         requests being processed by an origin for one transport <= MaxConnsPerHost;
+//                  every pool snapshot respects the idle / per-host limits.
+// The race detector watches the whole run (parent parses stderr).
+
+import (
+	"context"
+	"crypto/tls"
+	"fmt"
+	"io"
+	"net"
+	"net/http"
+	"sort"
+	"strings"
+	"sync"
+	"sync/atomic"
+	"time"
+
+	req "github.com/imroc/req/v3"
+	"github.com/imroc/req/v3/internal/testcert"
+	"github.com/imroc/req/v3/verifharness/hk"
+	"github.com/quic-go/quic-go"
+	qh3 "github.com/quic-go/quic-go/http3"
+)
+
+type connStat struct {
+	id       int64
+	inflight int32
+	served   int32
+}
+
+type ctxKey int
+
+const connStatKey ctxKey = 1
+
+type roundStat struct {
+	processing    [4]int32 // per origin: requests between "request read" and "response started"
+	maxProcessing [4]int32
+}
+
+type origin struct {
+	idx       int
+	addr      string
+	ln        net.Listener
+	srv       *http.Server
+	connSeq   int64
+	live      int32
+	overlaps  int32
+	rounds    sync.Map // round id -> *roundStat
+	altSvc    string   // Alt-Svc header value to advertise ("" = none)
+	wireMu    sync.Mutex
+	wire      map[int64][][2]string // conn id -> (tag, chunk) in write order (multiplexed phases)
+	logWire   bool
+	delayRand *lockedRand
+}
+
+type lockedRand struct {
+	mu sync.Mutex
+	r  *hk.Rand
+}
+
+func (l *lockedRand) Intn(n int) int {
+	l.mu.Lock()
+	defer l.mu.Unlock()
+	return l.r.Intn(n)
+}
+
+func chunksOf(tag string, kind string) []string {
+	n := 1
+	pad := 0
+	switch kind {
+	case "big":
+		n, pad = 4, 16000
+	case "multi":
+		n = 3 + len(tag)%4
+	case "early":
+		n, pad = 2, 20000
+	}
+	var out []string
+	for j := 0; j < n; j++ {
+		out = append(out, fmt.Sprintf("%s#%d;%s", tag, j, strings.Repeat("x", pad)))
+	}
+	return out
+}
+
+func (o *origin) handler(w http.ResponseWriter, r *http.Request) {
+	tag := r.Header.Get("X-Tag")
+	kind := r.URL.Query().Get("k")
+	var cs *connStat
+	if v := r.Context().Value(connStatKey); v != nil {
+		cs = v.(*connStat)
+	}
+	if cs != nil && r.ProtoMajor == 1 {
+		if atomic.AddInt32(&cs.inflight, 1) > 1 {
+			atomic.AddInt32(&o.overlaps, 1)
+		}
+		defer atomic.AddInt32(&cs.inflight, -1)
+		atomic.AddInt32(&cs.served, 1)
+	}
+	var rs *roundStat
+	if r.Header.Get("X-Clone") == "" {
+		v, _ := o.rounds.LoadOrStore(r.Header.Get("X-Round"), &roundStat{})
+		rs = v.(*roundStat)
+		n := atomic.AddInt32(&rs.processing[o.idx], 1)
+		for {
+			m := atomic.LoadInt32(&rs.maxProcessing[o.idx])
+			if n <= m || atomic.CompareAndSwapInt32(&rs.maxProcessing[o.idx], m, n) {
+				break
+			}
+		}
+	}
+	released := false
+	release := func() {
+		if rs != nil && !released {
+			released = true
+			atomic.AddInt32(&rs.processing[o.idx], -1)
+		}
+	}
+	defer release()
+	body, _ := io.ReadAll(r.Body)
+	if r.Method == "POST" && string(body) != "body-of-"+tag {
+		release()
+		w.Header().Set("X-Tag-Echo", "BAD-REQUEST-BODY:"+string(body))
+		w.WriteHeader(400)
+		return
+	}
+	if d := o.delayRand.Intn(4); d > 0 && kind != "fast" {
+		time.Sleep(time.Duration(d) * 300 * time.Microsecond)
+	}
+	if kind == "abort" {
+		release()
+		if hj, ok := w.(http.Hijacker); ok {
+			if c, _, err := hj.Hijack(); err == nil {
+				c.Close()
+				return
+			}
+		}
+		panic(http.ErrAbortHandler)
+	}
+	if o.altSvc != "" {
+		w.Header().Set("Alt-Svc", o.altSvc)
+	}
+	w.Header().Set("X-Tag-Echo", tag)
+	w.Header().Set("X-Proto", r.Proto)
+	if kind == "close" {
+		w.Header().Set("Connection", "close")
+	}
+	release()
+	if r.Method == "HEAD" {
+		return
+	}
+	fl, _ := w.(http.Flusher)
+	for j, ch := range chunksOf(tag, kind) {
+		if o.logWire && cs != nil {
+			o.wireMu.Lock()
+			o.wire[cs.id] = append(o.wire[cs.id], [2]string{tag, ch})
+			w.Write([]byte(ch))
+			if fl != nil {
+				fl.Flush()
+			}
+			o.wireMu.Unlock()
+			if j%2 == 0 {
+				time.Sleep(time.Duration(o.delayRand.Intn(3)) * 200 * time.Microsecond)
+			}
+		} else {
+			w.Write([]byte(ch))
+		}
+	}
+}
+
+func newOrigin(idx int, seed uint64, useTLS bool) (*origin, error) {
+	ln, err := net.Listen("tcp", "127.0.0.1:0")
+	if err != nil {
+		return nil, err
+	}
+	o := &origin{idx: idx, addr: ln.Addr().String(), ln: ln, wire: map[int64][][2]string{}, delayRand: &lockedRand{r: hk.NewRand(seed)}}
+	o.srv = &http.Server{
+		Handler: http.HandlerFunc(o.handler),
+		ConnContext: func(ctx context.Context, c net.Conn) context.Context {
+			return context.WithValue(ctx, connStatKey, &connStat{id: atomic.AddInt64(&o.connSeq, 1)})
+		},
+		ConnState: func(c net.Conn, st http.ConnState) {
+			switch st {
+			case http.StateNew:
+				atomic.AddInt32(&o.live, 1)
+			case http.StateClosed, http.StateHijacked:
+				atomic.AddInt32(&o.live, -1)
+			}
+		},
+		ErrorLog: nil,
+	}
+	if useTLS {
+		cert, err := tls.X509KeyPair(testcert.LocalhostCert, testcert.LocalhostKey)
+		if err != nil {
+			return nil, err
+		}
+		o.srv.TLSConfig = &tls.Config{Certificates: []tls.Certificate{cert}, NextProtos: []string{"h2", "http/1.1"}}
+		go o.srv.ServeTLS(ln, "", "")
+	} else {
+		go o.srv.Serve(ln)
+	}
+	return o, nil
+}
+
+// one tagged request; returns "" or a description of what went wrong.
+func doTagged(c *req.Client, base, tag, kind, round string, clone bool) (problem string, proto string, errored bool) {
+	rq := c.R().SetHeader("X-Tag", tag).SetHeader("X-Round", round)
+	if clone {
+		rq.SetHeader("X-Clone", "1")
+	}
+	method := "GET"
+	switch kind {
+	case "post":
+		method = "POST"
+		rq.SetBody("body-of-" + tag)
+	case "head":
+		method = "HEAD"
+	case "early":
+		rq.DisableAutoReadResponse()
+	}
+	resp, err := rq.Send(method, base+"/?k="+kind)
+	if err != nil {
+		return "", "", true
+	}
+	if resp.Response == nil {
+		return "nil response without error", "", false
+	}
+	proto = resp.Proto
+	if e := resp.Header.Get("X-Tag-Echo"); e != tag {
+		return fmt.Sprintf("header echo %q", e), proto, false
+	}
+	want := strings.Join(chunksOf(tag, kind), "")
+	switch kind {
+	case "head":
+		return "", proto, false
+	case "early":
+		buf := make([]byte, len(tag)+3)
+		_, rerr := io.ReadFull(resp.Body, buf)
+		resp.Body.Close()
+		if rerr != nil {
+			return "", proto, true
+		}
+		if string(buf) != want[:len(buf)] {
+			return fmt.Sprintf("body prefix %q", string(buf)), proto, false
+		}
+		return "", proto, false
+	}
+	got, rerr := resp.ToString()
+	if rerr != nil {
+		return "", proto, true
+	}
+	if got != want {
+		g := got
+		if len(g) > 60 {
+			g = g[:60]
+		}
+		return fmt.Sprintf("body %q (len %d, want len %d)", g, len(got), len(want)), proto, false
+	}
+	return "", proto, false
+}
+
+func snapCoq(cfg replayCfg, snap req.VerifPoolSnap, keys []string, ids map[net.Conn]int) (string, bool) {
+	var idle []string
+	var iw, ph, dw []int
+	nt := false
+	for _, k := range keys {
+		var l []string
+		for _, c := range snap.Idle[k] {
+			id, ok := ids[c]
+			if !ok {
+				id = len(ids)
+				ids[c] = id
+			}
+			l = append(l, fmt.Sprint(id))
+		}
+		if len(l) > 0 || snap.PerHost[k] > 0 {
+			nt = true
+		}
+		idle = append(idle, hk.CoqList(l))
+		iw = append(iw, snap.IdleWait[k])
+		ph = append(ph, snap.PerHost[k])
+		dw = append(dw, snap.DialWait[k])
+	}
+	return fmt.Sprintf("SnapCase %s (mkSnap %s %d %s %s %s %s)", cfg.coq(), hk.CoqList(idle), snap.LRULen, coqNats(iw), coqNats(ph), coqNats(dw), hk.CoqBool(snap.CloseIdle)), nt
+}
+
+func phaseH1(cr *childResult, seed uint64, quick bool) {
+	rng := hk.NewRand(seed ^ 0x4831)
+	rounds, perRound := 20, 100
+	if !quick {
+		rounds, perRound = 400, 200
+	}
+	var origins []*origin
+	for i := 0; i < 2; i++ {
+		o, err := newOrigin(i, seed+uint64(i), false)
+		if err != nil {
+			cr.Notes = append(cr.Notes, "h1: listen failed: "+err.Error())
+			return
+		}
+		defer o.srv.Close()
+		origins = append(origins, o)
+	}
+	kinds := []string{"get", "get", "post", "head", "big", "close", "abort", "early", "fast", "multi"}
+	for round := 0; round < rounds; round++ {
+		cfg := replayCfg{
+			MaxIdle:     hk.Pick(rng, []int{0, 2, 100}),
+			MaxIdleHost: hk.Pick(rng, []int{0, 1, 2, 5}),
+			MaxHost:     hk.Pick(rng, []int{0, 1, 2, 5}),
+		}
+		c := req.C()
+		t := c.GetTransport()
+		t.MaxIdleConns, t.MaxIdleConnsPerHost, t.MaxConnsPerHost = cfg.MaxIdle, cfg.MaxIdleHost, cfg.MaxHost
+		callers := rng.Range(8, 16)
+		roundID := fmt.Sprintf("h1-%d-%d", seed, round)
+		keys := []string{"|http|" + origins[0].addr, "|http|" + origins[1].addr}
+		sort.Strings(keys)
+		var wg sync.WaitGroup
+		var failMu sync.Mutex
+		stop := make(chan struct{})
+		var errCount, okCount int32
+		report := func(tag, kind, problem string) {
+			failMu.Lock()
+			cr.fail(hk.Failure{Sig: "crosstalk:h1:" + kind, What: "caller did not receive the response to its own request over HTTP/1.1",
+				Input: map[string]interface{}{"round": roundID, "cfg": cfg, "tag": tag, "kind": kind}, Got: problem, Want: tag})
+			failMu.Unlock()
+		}
+		for g := 0; g < callers; g++ {
+			wg.Add(1)
+			lr := rng.Fork()
+			go func(g int) {
+				defer wg.Done()
+				for i := 0; i < perRound/callers; i++ {
+					kind := hk.Pick(lr, kinds)
+					tag := fmt.Sprintf("%s-g%d-i%d", roundID, g, i)
+					o := origins[lr.Intn(2)]
+					problem, _, errored := doTagged(c, "http://"+o.addr, tag, kind, roundID, false)
+					if problem != "" {
+						report(tag, kind, problem)
+					}
+					if errored {
+						atomic.AddInt32(&errCount, 1)
+						if kind != "abort" && kind != "early" {
+							failMu.Lock()
+							cr.count("h1.unexpected_error_kind=" + kind)
+							failMu.Unlock()
+						}
+					} else {
+						atomic.AddInt32(&okCount, 1)
+					}
+				}
+			}(g)
+		}
+		// Clone and CloseIdleConnections running concurrently with the callers
+		var bg sync.WaitGroup
+		bg.Add(3)
+		go func() {
+			defer bg.Done()
+			i := 0
+			for {
+				select {
+				case <-stop:
+					return
+				default:
+				}
+				cc := c.Clone()
+				tag := fmt.Sprintf("%s-clone-%d", roundID, i)
+				if problem, _, _ := doTagged(cc, "http://"+origins[i%2].addr, tag, "get", roundID, true); problem != "" {
+					report(tag, "clone", problem)
+				}
+				cc.GetTransport().CloseIdleConnections()
+				i++
+				time.Sleep(time.Millisecond)
+			}
+		}()
+		go func() {
+			defer bg.Done()
+			for {
+				select {
+				case <-stop:
+					return
+				case <-time.After(3 * time.Millisecond):
+					t.CloseIdleConnections()
+				}
+			}
+		}()
+		ids := map[net.Conn]int{}
+		seen := map[string]bool{}
+		emit := func(snap req.VerifPoolSnap) {
+			if msg := limitsOracle(snap); msg != "" {
+				failMu.Lock()
+				cr.fail(hk.Failure{Sig: "limits:h1:" + strings.SplitN(msg, " ", 2)[0], What: "configured connection limits are not respected: " + msg,
+					Input: map[string]interface{}{"round": roundID, "cfg": cfg}, Got: snap.PerHost})
+				failMu.Unlock()
+			}
+			coq, nt := snapCoq(cfg, snap, keys, ids)
+			if !seen[coq] && len(seen) < 30 {
+				seen[coq] = true
+				failMu.Lock()
+				cr.add(coq, map[string]interface{}{"kind": "snapshot", "round": roundID, "cfg": cfg, "coq": coq}, coq, nt)
+				failMu.Unlock()
+			}
+		}
+		go func() {
+			defer bg.Done()
+			for {
+				select {
+				case <-stop:
+					return
+				case <-time.After(400 * time.Microsecond):
+					emit(req.VerifPoolSnapshot(t))
+					failMu.Lock()
+					cr.count("h1.snapshots_sampled")
+					failMu.Unlock()
+				}
+			}
+		}()
+		wg.Wait()
+		close(stop)
+		bg.Wait()
+		emit(req.VerifPoolSnapshot(t)) // quiescent point
+		cr.countN("h1.requests_ok", int(okCount))
+		cr.countN("h1.requests_errored", int(errCount))
+		cr.count(fmt.Sprintf("h1.maxconnsperhost=%d", cfg.MaxHost))
+		cr.count(fmt.Sprintf("h1.maxidleperhost=%d", cfg.MaxIdleHost))
+		for _, o := range origins {
+			if v, ok := o.rounds.Load(roundID); ok {
+				m := int(atomic.LoadInt32(&v.(*roundStat).maxProcessing[o.idx]))
+				if cfg.MaxHost > 0 && m > cfg.MaxHost {
+					cr.fail(hk.Failure{Sig: "limits:h1:origin-concurrency", What: "an origin was processing more requests of one transport at once than MaxConnsPerHost allows",
+						Input: map[string]interface{}{"round": roundID, "cfg": cfg}, Got: m, Want: cfg.MaxHost})
+				}
+				if m >= 2 {
+					cr.count("h1.rounds_with_concurrency>=2")
+				}
+			}
+		}
+		// listener-level live connections at the quiescent point (generous settle loop)
+		if cfg.MaxHost > 0 {
+			for _, o := range origins {
+				deadline := time.Now().Add(3 * time.Second)
+				for atomic.LoadInt32(&o.live) > int32(cfg.MaxHost)+0 && time.Now().Before(deadline) {
+					time.Sleep(5 * time.Millisecond)
+				}
+			}
+		}
+		t.CloseIdleConnections()
+		for _, o := range origins { // let the clones' and this round's connections drain
+			deadline := time.Now().Add(3 * time.Second)
+			for atomic.LoadInt32(&o.live) > 0 && time.Now().Before(deadline) {
+				time.Sleep(2 * time.Millisecond)
+			}
+			if l := atomic.LoadInt32(&o.live); l > 0 {
+				cr.count("h1.live_conns_left_after_round")
+			}
+		}
+	}
+	for _, o := range origins {
+		if n := atomic.LoadInt32(&o.overlaps); n > 0 {
+			cr.fail(hk.Failure{Sig: "overlap:h1", What: "an HTTP/1.1 connection carried two overlapping requests (seen by the origin)",
+				Input: map[string]interface{}{"seed": seed, "origin": o.idx}, Got: n, Want: 0})
+		}
+	}
+}
+
+// ---------- multiplexed phases ----------
+
+type muxResult struct {
+	tag, body string
+}
+
+func emitDemux(cr *childResult, o *origin, results map[string]string, label string) {
+	o.wireMu.Lock()
+	defer o.wireMu.Unlock()
+	var connIDs []int64
+	for id := range o.wire {
+		connIDs = append(connIDs, id)
+	}
+	sort.Slice(connIDs, func(i, j int) bool { return connIDs[i] < connIDs[j] })
+	for _, id := range connIDs {
+		log := o.wire[id]
+		sid := map[string]int{}
+		var order []string
+		for _, e := range log {
+			if _, ok := sid[e[0]]; !ok {
+				sid[e[0]] = len(sid)*2 + 1
+				order = append(order, e[0])
+			}
+		}
+		var open, wire, recv []string
+		interleaved := false
+		for i, e := range log {
+			wire = append(wire, hk.CoqPair(fmt.Sprint(sid[e[0]]), hk.CoqStr(e[1])))
+			if i > 0 && log[i-1][0] != e[0] {
+				interleaved = true
+			}
+		}
+		for _, tag := range order {
+			body, ok := results[tag]
+			if !ok {
+				continue // the caller failed / was not waiting: stream not compared
+			}
+			open = append(open, fmt.Sprint(sid[tag]))
+			recv = append(recv, hk.CoqPair(fmt.Sprint(sid[tag]), hk.CoqStr(body)))
+		}
+		if len(open) == 0 || len(log) > 400 {
+			continue
+		}
+		coq := fmt.Sprintf("DemuxCase %s %s %s", hk.CoqList(open), hk.CoqList(wire), hk.CoqList(recv))
+		cr.add(coq, map[string]interface{}{"kind": "demux", "proto": label, "conn": id, "streams": len(open), "frames": len(log)}, coq, interleaved && len(open) >= 2)
+		cr.count(label + ".demux_cases")
+	}
+	o.wire = map[int64][][2]string{}
+}
+
+func runMux(cr *childResult, rng *hk.Rand, c *req.Client, base string, o *origin, label, roundID string, n, callers int, wantProto string) {
+	var wg sync.WaitGroup
+	var mu sync.Mutex
+	results := map[string]string{}
+	for g := 0; g < callers; g++ {
+		wg.Add(1)
+		lr := rng.Fork()
+		go func(g int) {
+			defer wg.Done()
+			for i := 0; i < n/callers; i++ {
+				kind := hk.Pick(lr, []string{"multi", "multi", "big", "get", "post", "head"})
+				tag := fmt.Sprintf("%s-g%d-i%d", roundID, g, i)
+				problem, proto, errored := doTagged(c, base, tag, kind, roundID, false)
+				mu.Lock()
+				if problem != "" {
+					cr.fail(hk.Failure{Sig: "crosstalk:" + label + ":" + kind, What: "caller did not receive the response to its own request on a multiplexed connection",
+						Input: map[string]interface{}{"round": roundID, "tag": tag, "kind": kind}, Got: problem, Want: tag})
+				}
+				if errored {
+					cr.count(label + ".requests_errored")
+				} else {
+					cr.count(label + ".requests_ok")
+					cr.count(label + ".proto=" + proto)
+					if kind != "head" {
+						results[tag] = strings.Join(chunksOf(tag, kind), "")
+					}
+					if wantProto != "" && proto != wantProto {
+						cr.count(label + ".unexpected_proto=" + proto)
+					}
+				}
+				mu.Unlock()
+			}
+		}(g)
+	}
+	wg.Wait()
+	// results holds what each caller verified it received (doTagged compared the bytes)
+	emitDemux(cr, o, results, label)
+}
+
+func phaseH2(cr *childResult, seed uint64, quick bool) {
+	rng := hk.NewRand(seed ^ 0x4832)
+	rounds, perRound := 6, 48
+	if !quick {
+		rounds, perRound = 100, 96
+	}
+	o, err := newOrigin(0, seed, true)
+	if err != nil {
+		cr.Notes = append(cr.Notes, "h2: listen failed: "+err.Error())
+		return
+	}
+	defer o.srv.Close()
+	o.logWire = true
+	for round := 0; round < rounds; round++ {
+		c := req.C().EnableInsecureSkipVerify().SetTimeout(30 * time.Second)
+		roundID := fmt.Sprintf("h2-%d-%d", seed, round)
+		stop := make(chan struct{})
+		var bg sync.WaitGroup
+		bg.Add(1)
+		go func() { // Clone concurrently
+			defer bg.Done()
+			for i := 0; ; i++ {
+				select {
+				case <-stop:
+					return
+				default:
+				}
+				cc := c.Clone()
+				_ = cc
+				time.Sleep(500 * time.Microsecond)
+			}
+		}()
+		runMux(cr, rng, c, "https://"+o.addr, o, "h2", roundID, perRound, rng.Range(6, 12), "HTTP/2.0")
+		close(stop)
+		bg.Wait()
+		c.GetTransport().CloseIdleConnections()
+	}
+}
+
+func phaseH3(cr *childResult, seed uint64, quick bool) {
+	rng := hk.NewRand(seed ^ 0x4833)
+	rounds, perRound := 4, 40
+	if !quick {
+		rounds, perRound = 60, 80
+	}
+	cert, err := tls.X509KeyPair(testcert.LocalhostCert, testcert.LocalhostKey)
+	if err != nil {
+		cr.Notes = append(cr.Notes, "h3: cert: "+err.Error())
+		return
+	}
+	pc, err := net.ListenPacket("udp", "127.0.0.1:0")
+	if err != nil {
+		cr.Notes = append(cr.Notes, "h3: loopback UDP not available: "+err.Error())
+		return
+	}
+	o3 := &origin{idx: 1, addr: pc.LocalAddr().String(), wire: map[int64][][2]string{}, delayRand: &lockedRand{r: hk.NewRand(seed + 3)}, logWire: true}
+	var h3conn int64
+	srv3 := &qh3.Server{
+		TLSConfig: qh3.ConfigureTLSConfig(&tls.Config{Certificates: []tls.Certificate{cert}}),
+		Handler:   http.HandlerFunc(o3.handler),
+		ConnContext: func(ctx context.Context, c quic.Connection) context.Context {
+			return context.WithValue(ctx, connStatKey, &connStat{id: atomic.AddInt64(&h3conn, 1)})
+		},
+	}
+	go srv3.Serve(pc)
+	defer srv3.Close()
+	// (a) forced HTTP/3
+	for round := 0; round < rounds; round++ {
+		c := req.C().EnableInsecureSkipVerify().EnableForceHTTP3().SetTimeout(30 * time.Second)
+		roundID := fmt.Sprintf("h3-%d-%d", seed, round)
+		runMux(cr, rng, c, "https://"+o3.addr, o3, "h3", roundID, perRound, rng.Range(4, 10), "HTTP/3.0")
+	}
+	// (b) Alt-Svc upgrade: an h2 origin advertises the h3 endpoint; callers keep hammering
+	o2, err := newOrigin(0, seed+7, true)
+	if err != nil {
+		cr.Notes = append(cr.Notes, "altsvc: listen failed: "+err.Error())
+		return
+	}
+	defer o2.srv.Close()
+	_, port, _ := net.SplitHostPort(o3.addr)
+	o2.altSvc = `h3=":` + port + `"; ma=3600`
+	for round := 0; round < rounds; round++ {
+		c := req.C().EnableInsecureSkipVerify().EnableHTTP3().SetTimeout(30 * time.Second)
+		roundID := fmt.Sprintf("alt-%d-%d", seed, round)
+		// several hosts names for the same origin would need DNS; one authority, many callers
+		runMux(cr, rng, c, "https://"+o2.addr, o2, "altsvc", roundID, perRound*2, rng.Range(6, 12), "")
+		c.GetTransport().CloseIdleConnections()
+	}
+}
